@@ -118,7 +118,7 @@ const EXPR_FORMS: &[&str] = &[
     "const { 1 }", "yield 1", "loop {}", "while a {}", "for a in b {}", "a < b > c", "||{}", "static || 1", "do yeet 1", "&raw const x", "builtin # offset_of(a, b)",
 ];
 const TYPE_FORMS: &[&str] = &[
-    "i32", "m::T", "T<i32>", "T::<i32>", "T<'a>", "T<'static>", "T<'_>", "T<1>", "T<{ 1 }>", "T<-1>", "T<A = B>", "T<A: B>", "<T as X>::Y", "[u8; 4]", "[u8]", "&'static str", "&mut T", "*const T", "dyn Tr", "dyn Tr + Send",
+    "i32", "m::T", "m::T<i32>", "m::T<'a>", "m::n::T<i32, 'a>", "T<i32>", "T::<i32>", "T<'a>", "T<'static>", "T<'_>", "T<1>", "T<{ 1 }>", "T<-1>", "T<A = B>", "T<A: B>", "<T as X>::Y", "[u8; 4]", "[u8]", "&'static str", "&mut T", "*const T", "dyn Tr", "dyn Tr + Send",
     "impl Tr", "fn(i32) -> i32", "(i32, i16)", "()", "!", "_", "T<(i32, i16)>", "T<[u8; 4]>", "T<dyn Tr>", "::m::T", "crate::T", "self::T", "super::T", "Self", "T<fn(i32)>", "m::T<i32>::U", "T<T<T<i32>>>", "T<i32,>", "T<>",
     "T(i32) -> i32", "Fn(i32) -> i32", "m!()", "T<A = (B, C)>", "for<'a> fn(&'a i32)", "T<'a, 'a>", "unsafe extern \"C\" fn()",
 ];
